@@ -2,6 +2,8 @@ import Driver.Core
 import Driver.Order
 import Driver.Keys
 import Driver.Sign
+import Driver.Fetch
+import Driver.Codec
 /-! `modeldriver <stream>`: reads a trace on stdin, replays it on the model, prints DIFF / SPEC lines
 and a final `SUMMARY` line with the counts of comparisons and predicate evaluations. -/
 open Driver
@@ -38,6 +40,22 @@ partial def signLoop (h : IO.FS.Stream) (s : SSt) : IO SSt := do
   for m in s.out do IO.println m
   signLoop h { s with out := #[] }
 
+partial def fetchLoop (h : IO.FS.Stream) (s : FSt) : IO FSt := do
+  let line ← h.getLine
+  if line.isEmpty then return s
+  let line := if line.back == '\n' then (line.dropEnd 1).toString else line
+  let s := handleFetch s line
+  for m in s.out do IO.println m
+  fetchLoop h { s with out := #[] }
+
+partial def codecLoop (h : IO.FS.Stream) (s : Driver.Codec.CSt) : IO Driver.Codec.CSt := do
+  let line ← h.getLine
+  if line.isEmpty then return s
+  let line := if line.back == '\n' then (line.dropEnd 1).toString else line
+  let s := Driver.Codec.handleLine s line
+  for m in s.out do IO.println m
+  codecLoop h { s with out := #[] }
+
 def main (args : List String) : IO UInt32 := do
   let stdin ← IO.getStdin
   match args with
@@ -62,6 +80,16 @@ def main (args : List String) : IO UInt32 := do
     let s ← signLoop stdin {}
     let cs := s.checks.toList.map (fun (k, v) => s!"{k}={v}")
     IO.println s!"SUMMARY lines={s.lineNo} diffs={s.diffs} specfails={s.specFails} known={s.known} {" ".intercalate cs}"
+    return 0
+  | ["fetch"] =>
+    let s ← fetchLoop stdin {}
+    let cs := s.checks.toList.map (fun (k, v) => s!"{k}={v}")
+    IO.println s!"SUMMARY lines={s.lineNo} diffs={s.diffs} specfails={s.specFails} {" ".intercalate cs}"
+    return 0
+  | ["codec"] =>
+    let s ← codecLoop stdin {}
+    let cs := (s.checks.toList.toArray.qsort (fun a b => a.1 < b.1)).toList.map (fun (k, v) => s!"{k}={v}")
+    IO.println s!"SUMMARY lines={s.lineNo} diffs={s.diffs} specfails={s.specFails} {" ".intercalate cs}"
     return 0
   | _ =>
     IO.eprintln "usage: modeldriver core < trace"
